@@ -15,7 +15,7 @@ func init() {
 	register(&propDef{
 		id: "C14",
 		li: levelInfo{
-			Level: "other",
+			Level:       "other",
 			Explanation: "Static table and dominance analysis. The set of command names that can be stored into the handler table and the read-only set are computed from the SSA of the program (every MapUpdate on the table, keys resolved through call sites and constant slices) and compared entry by entry with an embedded Redis <= 5.0 command reference; who-may-call rules over the VTA call graph bound which functions can hand a request to a backend connection; in the host-choosing function every return that can yield a replica address is dominated by IsReadOnly()==true and by a read-strategy comparison that permits replicas. Decides the table/dominance clauses for all command names and all three strategies; slot layouts are runtime data and are not decided.",
 			Assumptions: []string{
 				"Redis <= 5.0 command table (flags, first-key position) embedded in samlint/refdata.go is the reference",
